@@ -973,6 +973,19 @@ def special_cases(rng, n):
                 w.apply(o)
             c = rng.random()
             other = rng.choice([0.0, 0.0, round(_logu(rng, -3, 1), 6)])
+            if i % 9 == 4 and not w.series:
+                # an ORDINARY amount on a row whose pool value is at the edge of the double range: poolValue x amount overflows, the token
+                # amounts of a withdrawal come out as inf - inf = nan (2f5f4ac: rejected like the deposit whose minted amount is not finite)
+                pv = rng.choice([1e308, 1.7e308, 1e305, 1e300])
+                w.pools[0]["poolValue"] = pv
+                w.market.amount = rng.choice([5e7, 1e4, 2.5, float(w.market.amount) or 1.0])
+                w.set_bar(0)
+                g = float(w.market.amount)
+                if rng.random() < 0.75:
+                    yield 2, w, {"kind": "withdraw", "amount": rng.choice([None, g, g * 0.9, g * 1e-3])}, f"withdraw:row-poolValue{pv:g}"
+                else:
+                    yield 2, w, {"kind": "deposit", "long": other, "short": round(_logu(rng, -3, 3), 6)}, f"deposit:row-poolValue{pv:g}"
+                continue
             if c < 0.3:
                 op, k = {"kind": "deposit", "long": x, "short": other}, "deposit.long"
             elif c < 0.6:
